@@ -229,11 +229,15 @@ func Run(r *rt.Run) error {
 		}
 	}
 	// 2. every chain of length 2 (every variant at both positions), stream and
-	// batch; the input rotates so that every pair sees two different inputs
+	// batch; the input rotates over the pairs (thorough: two inputs per pair)
 	k := 0
+	perPair := 1
+	if r.Thorough() {
+		perPair = 2
+	}
 	for _, a := range vs {
 		for _, b := range vs {
-			for d := 0; d < 2; d++ {
+			for d := 0; d < perPair; d++ {
 				si := sIn[(k+d*3)%len(sIn)]
 				bi := bIn[(k+d*2)%len(bIn)]
 				x.add(chain(srcS, a, b), si.ins, si.name)
